@@ -122,6 +122,11 @@ func (vc *VC) evalIdent(st *State, x *ast.Ident) Term {
 	case *types.Const:
 		return vc.constTerm(o.Val(), vc.ts.apply(o.Type()))
 	case *types.Var:
+		if cell, ok := st.cells[o]; ok {
+			// the variable's address was taken: its current value lives in the cell
+			pt := under(cell.T).(*types.Pointer)
+			return vc.loadDeref(st, vc.ts.apply(pt.Elem()), cell.S)
+		}
 		if v, ok := st.vars[o]; ok {
 			return v
 		}
@@ -601,14 +606,47 @@ func (vc *VC) checkGuard(st *State, structT types.Type, field, ref string, write
 	if !ok {
 		return
 	}
-	hn := vc.lockHeapName(structT, mu)
-	h := vc.heapGet(st, hn, "(Array Int Int)", nil)
-	cur := sel(h.S, ref)
-	need := "(>= " + cur + " 1)"
 	what := "read"
 	if write {
-		need = eq(cur, "2")
 		what = "write"
+	}
+	var need string
+	if parts := strings.Split(mu, "."); len(parts) == 3 {
+		// guarded S.f by Owner.ptrField.mu: the object is reached only through Owner.ptrField and is
+		// protected by the owner's mutex: some owner o with o.ptrField == ref holds its lock.
+		obj := n.Obj().Pkg().Scope().Lookup(parts[0])
+		if obj == nil {
+			vc.fail(at, "guarded: unknown owner type "+parts[0])
+		}
+		ownerT := obj.Type()
+		ost := under(ownerT).(*types.Struct)
+		var pf *types.Var
+		for i := 0; i < ost.NumFields(); i++ {
+			if ost.Field(i).Name() == parts[1] {
+				pf = ost.Field(i)
+			}
+		}
+		if pf == nil {
+			vc.fail(at, "guarded: unknown owner field "+mu)
+		}
+		fh, fsort := vc.fieldHeap(ownerT, pf)
+		ph := vc.heapGet(st, fh, fsort, pf.Type())
+		lh := vc.heapGet(st, vc.lockHeapName(ownerT, parts[2]), "(Array Int Int)", nil)
+		cur := sel(lh.S, "o!g")
+		lk := "(>= " + cur + " 1)"
+		if write {
+			lk = eq(cur, "2")
+		}
+		need = "(exists ((o!g Int)) " + and("(> o!g 0)", eq(sel(ph.S, "o!g"), ref), lk) + ")"
+		mu = "the " + mu + " of its owner"
+	} else {
+		hn := vc.lockHeapName(structT, mu)
+		h := vc.heapGet(st, hn, "(Array Int Int)", nil)
+		cur := sel(h.S, ref)
+		need = "(>= " + cur + " 1)"
+		if write {
+			need = eq(cur, "2")
+		}
 	}
 	vc.oblige(st, "lockset", fmt.Sprintf("%s of %s.%s requires %s to be held", what, n.Obj().Name(), field, mu), vc.pos(at),
 		or("(>= "+ref+" alloc@0)", need), nil)
